@@ -314,13 +314,18 @@ pub fn c03(seed: u64, budget: u64) -> FOut {
 /// C04: a single lost datagram never gets a live member declared Down
 pub fn c04(seed: u64, budget: u64) -> FOut {
     let mut out = FOut::default();
-    out.rule = "formed clusters of n = 2..5 (probe_period 1000 ms >= 2*probe_rtt 400 ms, latencies < probe_rtt/4, suspect_to_down_after 3 periods), notify_down_members on/off, renewable and non-renewable identities; for a seeded configuration EVERY datagram index in a window of 2n+2 probe periods is dropped in turn (one fresh run per index); monitors: no MemberDown / Defunct / Rejoin anywhere, and 2n+4 periods + suspect_to_down_after later every instance lists every other as Alive. distinct = distinct (configuration, dropped index, dropped kind)".into();
+    out.rule = "formed clusters of n = 2..5 (probe_period 1000 ms >= 2*probe_rtt 400 ms, latencies < probe_rtt/4, suspect_to_down_after 3 periods, and 0.6 / 1 / 1.5 periods in two-member clusters), notify_down_members on/off, renewable and non-renewable identities; for a seeded configuration EVERY datagram index in a window of 2n+2 probe periods is dropped in turn (one fresh run per index); monitors: no MemberDown / Defunct / Rejoin anywhere, and 2n+4 periods + suspect_to_down_after later every instance lists every other as Alive. distinct = distinct (configuration, dropped index, dropped kind)".into();
     let mut g = G::new(seed ^ 0xC04);
     let mut cfgs = 0u64;
     while out.runs < budget {
         let n = 2 + g.below(4) as usize;
         let mut cfg = cluster_cfg(&mut g, n);
         cfg.max_packet_size = 1400;
+        if n == 2 && g.chance(60) {
+            // two members: the suspicion reaches the suspect with the very next Ping, so a timeout shorter
+            // than a probe period (but longer than a round trip) is still safe
+            cfg.suspect_to_down_after = *g.pick(&[600 * MS, 1000 * MS, 1500 * MS]);
+        }
         let renew = if g.chance(50) { 1 } else { 0 };
         let sim_seed = g.next();
         // reference run to count datagrams in the window
